@@ -166,11 +166,11 @@ PAUSABLE = ("pair", "farm", "farm-with-locked-rewards", "farm-staking", "energy-
 
 # ---------------------------------------------------------------- calls
 class Call:
-    __slots__ = ("func", "args", "pays", "egld", "block", "frm", "to", "watch")
+    __slots__ = ("func", "args", "pays", "egld", "block", "frm", "to", "watch", "pre")
 
-    def __init__(self, args=(), pays=(), egld=0, block=None, frm=None, to=None, watch=None):
+    def __init__(self, args=(), pays=(), egld=0, block=None, frm=None, to=None, watch=None, pre=None):
         self.args, self.pays, self.egld, self.block = list(args), list(pays), egld, block
-        self.frm, self.to, self.watch = frm, to, watch
+        self.frm, self.to, self.watch, self.pre = frm, to, watch, pre
         self.func = None
 
 
@@ -239,6 +239,13 @@ class World:
     def close(self):
         self.vm.close()
 
+    def rebuild(self):
+        try:
+            self.vm.close()
+        except Exception:
+            pass
+        self.__init__()
+
     # ---- accounts
     def track(self, a, create=True, **kw):
         if create:
@@ -248,10 +255,14 @@ class World:
         return a
 
     def user(self, name):
-        return self.track(user_addr(name))
+        a = self.track(user_addr(name))
+        self.vm.setegld(a, 10 ** 21)
+        return a
 
     def sc(self, name):
-        return self.track(sc_addr(name))
+        a = self.track(sc_addr(name))
+        self.vm.setegld(a, 10 ** 21)
+        return a
 
     def reserve(self, name):
         """address of a contract that is about to be deployed (the account must not exist yet)"""
@@ -276,7 +287,7 @@ class World:
     def setup_hub(self, agents):
         """permissions hub: principal whitelists the three agents, removes one, hub owner blacklists one"""
         vm = self.vm
-        self.hub = self.sc("permhub")
+        self.hub = self.reserve("permhub")
         self.must(vm.deploy(self.owner, "permissions-hub", [], new_addr=self.hub), "hub")
         self.must(vm.call(self.P, self.hub, "whitelist", [agents[R_AGENT], agents[R_REVOKED], agents[R_BLACK]]))
         self.must(vm.call(self.P, self.hub, "removeWhitelist", [agents[R_REVOKED]]))
@@ -365,6 +376,11 @@ class World:
 
 
 # ---------------------------------------------------------------- matrix execution
+def token_total(vm, addr, token):
+    """balance of a token summed over all nonces"""
+    return sum(v for (t, n, v) in vm.tokens(addr) if t == token)
+
+
 def run_matrix(world, contract, rows, roles, states, rng=None, share=1.0):
     """executes every cell; returns list of cell dicts"""
     vm = world.vm
@@ -387,16 +403,30 @@ def run_matrix(world, contract, rows, roles, states, rng=None, share=1.0):
                     continue
                 if call.block is not None:
                     world.set_block(*call.block)
+                if call.pre is not None:
+                    call.pre()
                 watch = call.watch
-                pre_w = {k: vm.bal(*k) for k in watch} if watch else None
-                r = vm.call(call.frm, call.to, call.func, call.args, call.pays, call.egld)
+                pre_w = {k: token_total(vm, *k) for k in watch} if watch else None
+                try:
+                    r = vm.call(call.frm, call.to, call.func, call.args, call.pays, call.egld)
+                except RuntimeError:
+                    # the debug VM aborts on system-SC calls it does not emulate (after the guard has passed):
+                    # recorded as "other error", the world is rebuilt
+                    world.rebuild()
+                    vm = world.vm
+                    snap = world.snap[contract][st]
+                    base = snap["dump"]
+                    world.restore(snap)
+                    cells.append(dict(row=row, role=role, state=st, skipped=False, outcome=O_OTHER, msg="<vm: unsupported system call>",
+                                      ok=False, changed=False, crashed=True, call=[call.func, [a.hex() for a in call.args], [], call.egld]))
+                    continue
                 cur = world.dump()
                 changed = cur != base
                 cell = dict(row=row, role=role, state=st, skipped=False, outcome=classify(r), msg=r.msg, ok=r.ok,
                             changed=changed, call=[call.func, [a.hex() for a in call.args],
                                                    [[t.decode(), n, v] for (t, n, v) in call.pays], call.egld])
                 if watch and r.ok:
-                    cell["deltas"] = {k: vm.bal(*k) - pre_w[k] for k in watch}
+                    cell["deltas"] = {k: token_total(vm, *k) - pre_w[k] for k in watch}
                 cells.append(cell)
                 if changed or call.block is not None:
                     world.restore(snap, cur)
@@ -535,7 +565,1206 @@ class PairWorldA(World):
         return Call([self.owner])
 
 
-WORLDS = [PairWorldA]
+
+REW, LPF, FARMTK = b"REW-abcdef", b"LPFARM-abcdef", b"FARM-abcdef"
+MEX, LOCKED, LEGACY = b"MEX-abcdef", b"LOCKED-abcdef", b"LEGACY-abcdef"
+EF_OPTS = [(360, 4000), (720, 6000), (1440, 8000)]
+ROLES_META = ROLES_NFT + ["ESDTTransferRole"]
+
+
+def deploy_energy_factory(w, addr, unstake_addr, old_factory=None):
+    """real energy factory with MEX / LOCKED, unpaused"""
+    vm = w.vm
+    args = [MEX, LEGACY, old_factory or unstake_addr, top_u(0)]
+    for e, p in EF_OPTS:
+        args += [top_u(e), top_u(p)]
+    w.must(vm.deploy(w.owner, "energy-factory", args, new_addr=addr), "energy-factory")
+    vm.sset(addr, b"lockedTokenId", LOCKED)
+    vm.roles(addr, MEX, ROLES_MINT)
+    vm.roles(addr, LOCKED, ROLES_META)
+    vm.roles(addr, LEGACY, ["ESDTRoleNFTBurn"])
+
+
+class FarmWorldA(World):
+    """dex/farm (farming token = reward token, so compounding is possible) or
+    dex/farm-with-locked-rewards (rewards locked through a real energy factory), with permissions hub,
+    admin, pauser, whitelisted contract, a principal whose positions the agents hold"""
+    CODE = "farm"
+    contracts = ("farm",)
+
+    def __init__(self):
+        super().__init__()
+        vm = self.vm
+        c = self.CODE
+        locked = (c == "farm-with-locked-rewards")
+        self.owner = self.user("owner")
+        A = self.std_roles(c)
+        A[10 + P_WL] = self.sc("wl-caller")
+        self.P = self.user("principal")
+        self.farm = self.reserve("farm1")
+        self.target[c] = self.farm
+        self.efact = self.reserve("efactory")
+        self.rew = MEX if locked else REW
+        self.farming = LPF if locked else REW
+        if locked:
+            deploy_energy_factory(self, self.efact, self.dummy_sc)
+            self.ocall(self.efact, "unpause")
+        else:
+            self.must(vm.deploy(self.owner, "energy-factory-mock", [], new_addr=self.efact), "efact-mock")
+        self.setup_hub(A)
+        self.must(vm.deploy(self.owner, c, [self.rew, self.farming, top_u(10 ** 12), ZERO_ADDR, self.owner, A[R_ADMIN]],
+                            new_addr=self.farm), c)
+        vm.sset(self.farm, b"farm_token_id", FARMTK)
+        vm.roles(self.farm, FARMTK, ROLES_NFT)
+        vm.roles(self.farm, self.rew, ROLES_MINT)
+        if self.farming != self.rew:
+            vm.roles(self.farm, self.farming, ["ESDTRoleLocalBurn"])
+        self.ocall(self.farm, "setEnergyFactoryAddress", [self.efact])
+        self.ocall(self.farm, "setPermissionsHubAddress", [self.hub])
+        self.ocall(self.farm, "addToPauseWhitelist", [A[R_PAUSER]])
+        self.ocall(self.farm, "addSCAddressToWhitelist", [A[10 + P_WL]])
+        if locked:
+            self.ocall(self.farm, "setLockingScAddress", [self.efact])
+            self.ocall(self.farm, "setLockEpochs", [top_u(360)])
+            self.ocall(self.efact, "addSCAddressToWhitelist", [self.farm])
+        adm = A[R_ADMIN]
+        self.must(vm.call(adm, self.farm, "setPerBlockRewardAmount", [top_u(10 ** 6)]))
+        self.must(vm.call(adm, self.farm, "startProduceRewards"))
+        everyone = list(A.values()) + [self.P]
+        for a in everyone:
+            vm.setbal(a, self.farming, 0, BIG)
+        self.snap[c] = {S_INACTIVE: self.take_snapshot()}
+        self.ocall(self.farm, "resume")
+        # positions: every role holds two own positions and one position whose original owner is the principal
+        self.own = {}
+        self.ofp = {}
+        for a in everyone:
+            ns = []
+            for _ in range(2):
+                r = self.must(vm.call(a, self.farm, "enterFarm", [], [(self.farming, 0, 10 ** 6)]), "enter")
+                ns.append(dec_payment(r.out[0])[1])
+            self.own[a] = ns
+        for a in A.values():
+            r = self.must(vm.call(self.P, self.farm, "enterFarm", [], [(self.farming, 0, 10 ** 6)]), "enterP")
+            n = dec_payment(r.out[0])[1]
+            self.must(vm.transfer(self.P, a, [(FARMTK, n, 10 ** 6)]))
+            self.ofp[a] = n
+        self.some_attrs = vm.attrs(self.P, FARMTK, self.own[self.P][0])
+        self.set_block(200, 200, 5 + 7 * 7, 1200)          # rewards accrued, week 8
+        self.snap[c][S_ACTIVE] = self.take_snapshot()
+        self.ocall(self.farm, "pause")
+        self.snap[c][S_PAUSED] = self.take_snapshot()
+
+    def rew_watch(self, frm):
+        t = LOCKED if self.CODE == "farm-with-locked-rewards" else self.rew
+        return [(self.P, t), (frm, t)]
+
+    def caller(self, role):
+        return self.A[self.CODE][role]
+
+    def ep__enterFarm(self, row, role, st):
+        return Call([], [(self.farming, 0, 1000)])
+
+    def pos(self, row, role, st, k=0):
+        if st == S_INACTIVE:
+            return None
+        a = self.caller(role)
+        if row.variant == V_ORIG or row.kind == K_ONBEHALF:
+            return (FARMTK, self.ofp[a], 10 ** 6)
+        return (FARMTK, self.own[a][k], 10 ** 6)
+
+    def ep__claimRewards(self, row, role, st):
+        p = self.pos(row, role, st)
+        return Call([], [p]) if p else None
+
+    ep__compoundRewards = ep__claimRewards
+    ep__exitFarm = ep__claimRewards
+
+    def ep__mergeFarmTokens(self, row, role, st):
+        if st == S_INACTIVE:
+            return None
+        a = self.caller(role)
+        if row.variant == V_ORIG:
+            return Call([], [(FARMTK, self.ofp[a], 5 * 10 ** 5), (FARMTK, self.ofp[a], 5 * 10 ** 5)])
+        return Call([], [(FARMTK, self.own[a][0], 10 ** 6), (FARMTK, self.own[a][1], 10 ** 6)])
+
+    def ep__claimBoostedRewards(self, row, role, st):
+        if st == S_INACTIVE and row.variant == V_PLAIN:
+            return None                    # "User total farm position is empty!" precedes the state check
+        return Call([])
+
+    def ep__enterFarmOnBehalf(self, row, role, st):
+        return Call([self.P], [(self.farming, 0, 1000)])
+
+    def ep__claimRewardsOnBehalf(self, row, role, st):
+        p = self.pos(row, role, st)
+        return Call([], [p], watch=self.rew_watch(self.caller(role))) if p else None
+
+    def ep__calculateRewardsForGivenPosition(self, row, role, st):
+        if st == S_INACTIVE:
+            return None
+        return Call([self.P, top_u(1000), self.some_attrs])
+
+    def ep__removeSCAddressFromWhitelist(self, row, role, st):
+        return Call([self.caller(10 + P_WL)])
+
+    def ep__setBoostedYieldsFactors(self, row, role, st):
+        return Call([top_u(10), top_u(3), top_u(2), top_u(1), top_u(1)])
+
+    def ep__setBoostedYieldsRewardsPercentage(self, row, role, st):
+        return Call([top_u(2500)])
+
+    def ep__registerFarmToken(self, row, role, st):
+        return Call([b"FarmToken", b"FARM", top_u(18)], egld=5 * 10 ** 16)
+
+    def ep__startProduceRewards(self, row, role, st):
+        return Call([])
+
+    def ep__updateEnergyForUser(self, row, role, st):
+        return Call([self.P])
+
+    def ep__getUserTotalFarmPosition(self, row, role, st):
+        return Call([self.P])
+
+
+class FarmLockedWorldA(FarmWorldA):
+    CODE = "farm-with-locked-rewards"
+    contracts = ("farm-with-locked-rewards",)
+
+
+STK, STKFARM = b"RIDE-abcdef", b"STKFARM-abcdef"
+
+
+class StakingWorldA(World):
+    """farm-staking with hub, admin, pauser, whitelisted contract (the 'proxy')"""
+    contracts = ("farm-staking",)
+
+    def __init__(self):
+        super().__init__()
+        vm = self.vm
+        c = "farm-staking"
+        self.owner = self.user("owner")
+        A = self.std_roles(c)
+        A[10 + P_WL] = self.sc("wl-caller")
+        self.P = self.user("principal")
+        self.farm = self.reserve("staking1")
+        self.target[c] = self.farm
+        self.efact = self.reserve("efactory")
+        self.must(vm.deploy(self.owner, "energy-factory-mock", [], new_addr=self.efact), "efact-mock")
+        self.setup_hub(A)
+        self.must(vm.deploy(self.owner, c, [STK, top_u(10 ** 12), top_u(5000), top_u(3), self.owner, A[R_ADMIN]],
+                            new_addr=self.farm), c)
+        vm.sset(self.farm, b"farm_token_id", STKFARM)
+        vm.roles(self.farm, STKFARM, ROLES_NFT)
+        vm.roles(self.farm, STK, ["ESDTRoleLocalBurn"])
+        self.ocall(self.farm, "setEnergyFactoryAddress", [self.efact])
+        self.ocall(self.farm, "setPermissionsHubAddress", [self.hub])
+        self.ocall(self.farm, "addToPauseWhitelist", [A[R_PAUSER]])
+        self.ocall(self.farm, "addSCAddressToWhitelist", [A[10 + P_WL]])
+        adm = A[R_ADMIN]
+        everyone = list(A.values()) + [self.P]
+        for a in everyone:
+            vm.setbal(a, STK, 0, BIG)
+        self.must(vm.call(adm, self.farm, "topUpRewards", [], [(STK, 0, 10 ** 15)]))
+        self.must(vm.call(adm, self.farm, "setPerBlockRewardAmount", [top_u(10 ** 4)]))
+        self.must(vm.call(adm, self.farm, "startProduceRewards"))
+        self.snap[c] = {S_INACTIVE: self.take_snapshot()}
+        self.ocall(self.farm, "resume")
+        self.own, self.ofp, self.unb = {}, {}, {}
+        for a in everyone:
+            ns = []
+            for _ in range(3):
+                r = self.must(vm.call(a, self.farm, "stakeFarm", [], [(STK, 0, 10 ** 8)]), "stake")
+                ns.append(dec_payment(r.out[0])[1])
+            self.own[a] = ns
+        for a in A.values():
+            r = self.must(vm.call(self.P, self.farm, "stakeFarm", [], [(STK, 0, 10 ** 8)]), "stakeP")
+            n = dec_payment(r.out[0])[1]
+            self.must(vm.transfer(self.P, a, [(STKFARM, n, 10 ** 8)]))
+            self.ofp[a] = n
+        for a in A.values():            # an unbond token per role (third position)
+            r = self.must(vm.call(a, self.farm, "unstakeFarm", [], [(STKFARM, self.own[a][2], 10 ** 8)]), "unstake")
+            self.unb[a] = dec_payment(r.out[0])[1]
+        self.some_attrs = vm.attrs(self.P, STKFARM, self.own[self.P][0])
+        self.set_block(200, 200, 5 + 7 * 7, 1200)
+        self.snap[c][S_ACTIVE] = self.take_snapshot()
+        self.ocall(self.farm, "pause")
+        self.snap[c][S_PAUSED] = self.take_snapshot()
+
+    def caller(self, role):
+        return self.A["farm-staking"][role]
+
+    def pos(self, row, role, st, k=0):
+        if st == S_INACTIVE:
+            return None
+        a = self.caller(role)
+        if row.variant == V_ORIG or row.kind == K_ONBEHALF:
+            return (STKFARM, self.ofp[a], 10 ** 8)
+        return (STKFARM, self.own[a][k], 10 ** 8)
+
+    def ep__stakeFarm(self, row, role, st):
+        return Call([], [(STK, 0, 1000)])
+
+    def ep__stakeFarmThroughProxy(self, row, role, st):
+        return Call([top_u(1000), self.P], [])
+
+    def ep__claimRewards(self, row, role, st):
+        p = self.pos(row, role, st)
+        return Call([], [p]) if p else None
+
+    ep__compoundRewards = ep__claimRewards
+    ep__unstakeFarm = ep__claimRewards
+
+    def ep__claimRewardsWithNewValue(self, row, role, st):
+        if st == S_INACTIVE:
+            return None
+        return Call([top_u(10 ** 8), self.caller(role)], [(STKFARM, self.own[self.caller(role)][0], 10 ** 8)])
+
+    def ep__unstakeFarmThroughProxy(self, row, role, st):
+        if st == S_INACTIVE:
+            return None
+        return Call([self.caller(role)], [(STK, 0, 1000), (STKFARM, self.own[self.caller(role)][0], 10 ** 8)])
+
+    def ep__unbondFarm(self, row, role, st):
+        if st == S_INACTIVE:
+            return None
+        return Call([], [(STKFARM, self.unb[self.caller(role)], 10 ** 8)])
+
+    def ep__mergeFarmTokens(self, row, role, st):
+        if st == S_INACTIVE:
+            return None
+        a = self.caller(role)
+        return Call([], [(STKFARM, self.own[a][0], 10 ** 8), (STKFARM, self.own[a][1], 10 ** 8)])
+
+    def ep__claimBoostedRewards(self, row, role, st):
+        if st == S_INACTIVE and row.variant == V_PLAIN:
+            return None
+        return Call([])
+
+    def ep__stakeFarmOnBehalf(self, row, role, st):
+        return Call([self.P], [(STK, 0, 1000)])
+
+    def ep__claimRewardsOnBehalf(self, row, role, st):
+        p = self.pos(row, role, st)
+        return Call([], [p], watch=[(self.P, STK), (self.caller(role), STK)]) if p else None
+
+    def ep__calculateRewardsForGivenPosition(self, row, role, st):
+        if st == S_INACTIVE:
+            return None
+        return Call([top_u(1000), self.some_attrs])
+
+    def ep__topUpRewards(self, row, role, st):
+        return Call([], [(STK, 0, 1000)])
+
+    def ep__withdrawRewards(self, row, role, st):
+        return Call([top_u(1000)])
+
+    def ep__removeSCAddressFromWhitelist(self, row, role, st):
+        return Call([self.caller(10 + P_WL)])
+
+    def ep__setBoostedYieldsFactors(self, row, role, st):
+        return Call([top_u(10), top_u(3), top_u(2), top_u(1), top_u(1)])
+
+    def ep__registerFarmToken(self, row, role, st):
+        return Call([b"FarmToken", b"FARM", top_u(18)], egld=5 * 10 ** 16)
+
+    def ep__updateEnergyForUser(self, row, role, st):
+        return Call([self.P])
+
+    def ep__getUserTotalFarmPosition(self, row, role, st):
+        return Call([self.P])
+
+    def ep__setBurnRoleForAddress(self, row, role, st):
+        return Call([self.dummy_sc])
+
+
+class HubWorldA(World):
+    contracts = ("permissions-hub",)
+
+    def __init__(self):
+        super().__init__()
+        self.owner = self.user("owner")
+        A = self.std_roles("permissions-hub")
+        self.P = self.user("principal")
+        self.setup_hub(A)
+        self.target["permissions-hub"] = self.hub
+        for a in A.values():             # everybody has one address whitelisted, so removeWhitelist can succeed
+            self.must(self.vm.call(a, self.hub, "whitelist", [self.dummy_sc]))
+        self.snap["permissions-hub"] = {S_ACTIVE: self.take_snapshot()}
+
+    def ep__whitelist(self, row, role, st):
+        return Call([self.P])
+
+    def ep__removeWhitelist(self, row, role, st):
+        return Call([self.dummy_sc])
+
+    def ep__isWhitelisted(self, row, role, st):
+        return Call([self.P, self.A["permissions-hub"][R_AGENT]])
+
+
+
+WRAPPED = b"WLKMEX-abcdef"
+
+
+def enc_energy(amt, upd, tot):
+    raw = b"" if amt == 0 else amt.to_bytes((amt.bit_length() + 8) // 8, "big", signed=True)
+    return nest_bytes(raw) + nest_u64(upd) + nest_big(tot)
+
+
+class EnergyWorldA(World):
+    """energy-factory + token-unstake + lkmex-transfer + locked-token-wrapper (+ fees collector as the
+    sink of penalties).  Base roles are shared; counterparties: whitelisted SC, transfer-whitelisted SC,
+    old factory (own addresses), unstake SC = the real token-unstake contract, energy factory (for
+    token-unstake) = the real energy factory."""
+    contracts = ("energy-factory", "token-unstake", "lkmex-transfer", "locked-token-wrapper")
+    EPOCH0 = 20
+
+    def __init__(self):
+        super().__init__()
+        vm = self.vm
+        self.set_block(10, 10, self.EPOCH0, 60)
+        self.owner = self.user("owner")
+        base = self.std_roles("energy-factory")
+        self.P = self.user("principal")
+        self.fact, self.unst, self.xfer, self.wrap, self.coll = [self.reserve(n) for n in
+                                                                 ("factory", "unstake", "transfer", "wrapper", "collector")]
+        self.target.update({"energy-factory": self.fact, "token-unstake": self.unst, "lkmex-transfer": self.xfer,
+                            "locked-token-wrapper": self.wrap})
+        self.oldf = self.sc("old-factory")
+        wl, xsc = self.sc("wl-caller"), self.sc("transfer-sc")
+        deploy_energy_factory(self, self.fact, self.unst, self.oldf)
+        vm.setegld(self.fact, 10 ** 21)
+        self.must(vm.deploy(self.owner, "fees-collector", [LOCKED, self.fact], new_addr=self.coll), "collector")
+        self.must(vm.deploy(self.owner, "token-unstake", [top_u(5), self.fact, top_u(5000), self.coll], new_addr=self.unst), "unstake")
+        vm.setegld(self.unst, 10 ** 21)
+        vm.roles(self.unst, MEX, ["ESDTRoleLocalBurn"])
+        vm.roles(self.unst, LOCKED, ["ESDTRoleNFTBurn"])
+        vm.roles(self.coll, LOCKED, ["ESDTRoleNFTBurn"])
+        self.ocall(self.coll, "addKnownContracts", [self.unst])
+        self.ocall(self.fact, "setTokenUnstakeAddress", [self.unst])
+        self.must(vm.deploy(self.owner, "lkmex-transfer", [self.fact, LOCKED, top_u(1), top_u(0)], new_addr=self.xfer), "lkmex")
+        vm.roles(self.xfer, LOCKED, ["ESDTTransferRole"])
+        self.ocall(self.xfer, "addAdmin", [base[R_ADMIN]])
+        self.must(vm.deploy(self.owner, "locked-token-wrapper", [self.fact], new_addr=self.wrap), "wrapper")
+        vm.sset(self.wrap, b"wrappedTokenId", WRAPPED)
+        vm.roles(self.wrap, WRAPPED, ROLES_NFT)
+        self.ocall(self.fact, "addToTokenTransferWhitelist", [self.xfer, self.wrap, xsc])
+        self.ocall(self.fact, "addSCAddressToWhitelist", [wl])
+        A = dict(base)
+        A.update({10 + P_WL: wl, 10 + P_UNSTAKE: self.unst, 10 + P_OLDFACT: self.oldf, 10 + P_XFER: xsc})
+        self.A["energy-factory"] = A
+        self.A["token-unstake"] = {**base, 10 + P_EFACT: self.fact}
+        self.A["lkmex-transfer"] = dict(base)
+        self.A["locked-token-wrapper"] = dict(base)
+        everyone = list(base.values()) + [self.P, wl, xsc, self.oldf]
+        senders = [self.user(f"sender{i}") for i in range(len(base))]
+        for a in everyone + [self.unst, self.fact] + senders:
+            vm.setbal(a, MEX, 0, BIG)
+        # old-token energy bookkeeping may only be written while paused
+        self.ocall(self.fact, "setEnergyForOldTokens", [self.P, top_u(0), b""])
+        self.snap["energy-factory"] = {S_INACTIVE: self.take_snapshot()}
+        self.ocall(self.fact, "unpause")
+        E = self.EPOCH0
+        self.n = {}
+        for a in everyone:
+            for le in (360, 1440):
+                r = self.must(vm.call(a, self.fact, "lockTokens", [top_u(le)], [(MEX, 0, 10 ** 9)]), "lock")
+                self.n[le] = dec_payment(r.out[0])[1]
+        users = list(base.values())
+        for a in users:          # pending unbond entries, wrapped tokens, incoming transfers
+            self.must(vm.call(a, self.fact, "unlockEarly", [], [(LOCKED, self.n[360], 10 ** 6)]), "unlockEarly")
+            r = self.must(vm.call(a, self.wrap, "wrapLockedToken", [], [(LOCKED, self.n[360], 10 ** 6)]), "wrap")
+            self.wn = dec_payment(r.out[0])[1]
+        self.sender = {}
+        for i, a in enumerate(users):
+            snd = senders[i]
+            self.must(vm.call(snd, self.fact, "lockTokens", [top_u(360)], [(MEX, 0, 10 ** 9)]), "lock-s")
+            self.must(vm.call(snd, self.xfer, "lockFunds", [a], [(LOCKED, self.n[360], 10 ** 6)]), "lockFunds")
+            self.sender[a] = snd
+        for a in (self.fact, self.unst):  # what the factory forwards to token-unstake; the unstake SC as a caller
+            for le in (360, 1440):
+                vm.setbal(a, LOCKED, self.n[le], 10 ** 9, vm.attrs(self.P, LOCKED, self.n[le]))
+        self.later = (50, 50, E + 30, 300)           # unbond period and transfer lock over
+        self.expired = (60, 60, E + 400, 360)        # the 360-epoch lock is over
+        live = self.take_snapshot()
+        for c in self.contracts:
+            self.snap.setdefault(c, {})[S_ACTIVE] = live
+        self.ocall(self.fact, "pause")
+        self.snap["energy-factory"][S_PAUSED] = self.take_snapshot()
+
+    # ---- energy factory
+    def ep_energy_factory__lockTokens(self, row, role, st):
+        return Call([top_u(360)], [(MEX, 0, 1000)])
+
+    def tok(self, st, le=360, amt=1000):
+        if st == S_INACTIVE:
+            return None
+        return (LOCKED, self.n[le], amt)
+
+    def ep_energy_factory__unlockTokens(self, row, role, st):
+        p = self.tok(st)
+        return Call([], [p], block=self.expired) if p else None
+
+    def ep_energy_factory__extendLockPeriod(self, row, role, st):
+        p = self.tok(st)
+        return Call([top_u(720), self.P], [p]) if p else None
+
+    def ep_energy_factory__unlockEarly(self, row, role, st):
+        p = self.tok(st)
+        return Call([], [p]) if p else None
+
+    def ep_energy_factory__reduceLockPeriod(self, row, role, st):
+        p = self.tok(st, 1440)
+        return Call([top_u(360)], [p]) if p else None
+
+    def ep_energy_factory__revertUnstake(self, row, role, st):
+        return Call([self.P, enc_energy(1000, self.EPOCH0, 10)])
+
+    def ep_energy_factory__updateEnergyAfterOldTokenUnlock(self, row, role, st):
+        return Call([self.P, nest_u32(0), nest_u32(0)])
+
+    def ep_energy_factory__migrateOldTokens(self, row, role, st):
+        return Call([], [(MEX, 0, 1000)])
+
+    def ep_energy_factory__mergeTokens(self, row, role, st):
+        if st == S_INACTIVE:
+            return None
+        return Call([], [(LOCKED, self.n[360], 1000), (LOCKED, self.n[1440], 1000)])
+
+    def ep_energy_factory__lockVirtual(self, row, role, st):
+        return Call([MEX, top_u(1000), top_u(360), self.P, self.P])
+
+    def ep_energy_factory__setUserEnergyAfterLockedTokenTransfer(self, row, role, st):
+        return Call([self.P, enc_energy(1000, self.EPOCH0, 10)])
+
+    def ep_energy_factory__setEnergyForOldTokens(self, row, role, st):
+        return Call([self.P, top_u(10), top_u(1000)])
+
+    def ep_energy_factory__adjustUserEnergy(self, row, role, st):
+        if st == S_INACTIVE:
+            return None
+        return Call([self.P, top_u(5), top_u(1)])
+
+    def ep_energy_factory__addLockOptions(self, row, role, st):
+        return Call([top_u(1080), top_u(7000)])
+
+    def ep_energy_factory__issueLockedToken(self, row, role, st):
+        return Call([b"Locked", b"LKD", top_u(18)], egld=5 * 10 ** 16)
+
+    def ep_energy_factory__removeSCAddressFromWhitelist(self, row, role, st):
+        return Call([self.A["energy-factory"][10 + P_WL]])
+
+    def ep_energy_factory__removeFromTokenTransferWhitelist(self, row, role, st):
+        return Call([self.A["energy-factory"][10 + P_XFER]])
+
+    def ep_energy_factory__getEnergyEntryForUser(self, row, role, st):
+        return Call([self.P])
+
+    ep_energy_factory__getEnergyAmountForUser = ep_energy_factory__getEnergyEntryForUser
+
+    def ep_energy_factory__getPenaltyAmount(self, row, role, st):
+        return Call([top_u(1000), top_u(720), top_u(360)])
+
+    # ---- token-unstake
+    def ep_token_unstake__claimUnlockedTokens(self, row, role, st):
+        return Call([], block=self.later)
+
+    def ep_token_unstake__depositUserTokens(self, row, role, st):
+        return Call([self.P], [(LOCKED, self.n[360], 1000), (MEX, 0, 500)])
+
+    def ep_token_unstake__depositFees(self, row, role, st):
+        return Call([], [(LOCKED, self.n[360], 1000)])
+
+    def ep_token_unstake__setFeesBurnPercentage(self, row, role, st):
+        return Call([top_u(3000)])
+
+    def ep_token_unstake__getUnlockedTokensForUser(self, row, role, st):
+        return Call([self.A["token-unstake"][R_USER]])
+
+    # ---- lkmex-transfer
+    def ep_lkmex_transfer__withdraw(self, row, role, st):
+        return Call([self.sender[self.A["lkmex-transfer"][role]]], block=self.later)
+
+    def ep_lkmex_transfer__lockFunds(self, row, role, st):
+        return Call([self.P], [(LOCKED, self.n[360], 1000)])
+
+    def ep_lkmex_transfer__cancelTransfer(self, row, role, st):
+        u = self.A["lkmex-transfer"][R_USER]
+        return Call([self.sender[u], u])
+
+    def ep_lkmex_transfer__getScheduledTransfers(self, row, role, st):
+        return Call([self.A["lkmex-transfer"][R_USER]])
+
+    ep_lkmex_transfer__getAllSenders = ep_lkmex_transfer__getScheduledTransfers
+
+    # ---- locked-token-wrapper
+    def ep_locked_token_wrapper__wrapLockedToken(self, row, role, st):
+        return Call([], [(LOCKED, self.n[360], 1000)])
+
+    def ep_locked_token_wrapper__unwrapLockedToken(self, row, role, st):
+        return Call([], [(WRAPPED, self.wn, 1000)])
+
+    def ep_locked_token_wrapper__issueWrappedToken(self, row, role, st):
+        return Call([b"Wrapped", b"WLK", top_u(18)], egld=5 * 10 ** 16)
+
+
+
+FEE_T = b"USDC-abcdef"
+
+
+class FeesWorldA(World):
+    """fees-collector with a whitelisted contract (may claim for a user) and a known contract (may deposit)"""
+    contracts = ("fees-collector",)
+
+    def __init__(self):
+        super().__init__()
+        vm = self.vm
+        c = "fees-collector"
+        self.owner = self.user("owner")
+        A = self.std_roles(c)
+        A[10 + P_WL] = self.sc("wl-caller")
+        A[10 + P_KNOWN] = self.sc("known-pair")
+        self.P = self.user("principal")
+        self.coll = self.reserve("collector")
+        self.efact = self.reserve("efactory")
+        self.target[c] = self.coll
+        self.must(vm.deploy(self.owner, "energy-factory-mock", [], new_addr=self.efact), "efact-mock")
+        vm.sset(self.efact, b"lockedTokenId", LOCKED)
+        self.must(vm.deploy(self.owner, c, [LOCKED, self.efact], new_addr=self.coll), c)
+        vm.roles(self.coll, LOCKED, ["ESDTRoleNFTBurn"])
+        self.ocall(self.coll, "addKnownContracts", [A[10 + P_KNOWN]])
+        self.ocall(self.coll, "addKnownTokens", [FEE_T])
+        self.ocall(self.coll, "addSCAddressToWhitelist", [A[10 + P_WL]])
+        everyone = list(A.values()) + [self.P]
+        for a in everyone:
+            vm.setbal(a, FEE_T, 0, BIG)
+            self.ocall(self.efact, "setUserEnergy", [a, top_u(10 ** 6), top_u(10 ** 3)])
+        for a in everyone:                 # register energy in week 1, fees deposited in week 1
+            self.must(vm.call(a, self.coll, "claimRewards"), "claim0")
+        self.must(vm.call(A[10 + P_KNOWN], self.coll, "depositSwapFees", [], [(FEE_T, 0, 10 ** 9)]))
+        self.set_block(20, 20, 5 + 7, 120)       # week 2: week-1 fees are claimable
+        self.snap[c] = {S_ACTIVE: self.take_snapshot()}
+        self.ocall(self.coll, "pause")
+        self.snap[c][S_PAUSED] = self.take_snapshot()
+
+    def ep__claimRewards(self, row, role, st):
+        return Call([], watch=[(self.P, FEE_T), (self.A["fees-collector"][role], FEE_T)] if row.variant == V_ORIG else None)
+
+    def ep__claimBoostedRewards(self, row, role, st):
+        return Call([])
+
+    def ep__depositSwapFees(self, row, role, st):
+        return Call([], [(FEE_T, 0, 1000)])
+
+    def ep__addKnownTokens(self, row, role, st):
+        return Call([b"OTHER-abcdef"])
+
+    def ep__removeKnownTokens(self, row, role, st):
+        return Call([FEE_T])
+
+    def ep__removeKnownContracts(self, row, role, st):
+        return Call([self.A["fees-collector"][10 + P_KNOWN]])
+
+    def ep__removeSCAddressFromWhitelist(self, row, role, st):
+        return Call([self.A["fees-collector"][10 + P_WL]])
+
+    def ep__updateEnergyForUser(self, row, role, st):
+        return Call([self.P])
+
+    def ep__getAccumulatedFees(self, row, role, st):
+        return Call([top_u(1), FEE_T])
+
+    def ep__getCurrentClaimProgress(self, row, role, st):
+        return Call([self.P])
+
+    def ep__getUserEnergyForWeek(self, row, role, st):
+        return Call([self.P, top_u(1)])
+
+    def ep__getLastActiveWeekForUser(self, row, role, st):
+        return Call([self.P])
+
+
+GOV_FEE_T = b"MEX-abcdef"
+
+
+class GovWorldA(World):
+    """governance-v2 with one pending proposal made by the `proposer` account"""
+    contracts = ("governance-v2",)
+    FEE = 3 * 10 ** 24
+
+    def __init__(self):
+        super().__init__()
+        vm = self.vm
+        c = "governance-v2"
+        self.set_block(100, 100, 5, 600)
+        self.owner = self.user("owner")
+        A = self.std_roles(c)
+        A[10 + P_PROPOSER] = self.user("proposer")
+        self.P = self.user("principal")
+        self.gov, self.efact, self.coll = self.reserve("gov"), self.reserve("efactory"), self.reserve("collector")
+        self.target[c] = self.gov
+        self.must(vm.deploy(self.owner, "energy-factory-mock", [], new_addr=self.efact), "efact-mock")
+        self.must(vm.deploy(self.owner, "fees-collector", [LOCKED, self.efact], new_addr=self.coll), "collector")
+        self.must(vm.deploy(self.owner, c, [top_u(1000), top_u(self.FEE), top_u(5000), top_u(10), top_u(14400), top_u(5000),
+                                            self.efact, self.coll, GOV_FEE_T], new_addr=self.gov), c)
+        vm.roles(self.gov, GOV_FEE_T, ["ESDTRoleLocalBurn"])
+        for a in A.values():
+            vm.setbal(a, GOV_FEE_T, 0, 10 ** 40)
+            self.ocall(self.efact, "setUserEnergy", [a, top_u(10 ** 9), top_u(10 ** 6)])
+        r = self.must(vm.call(A[10 + P_PROPOSER], self.gov, "propose", [b"proposal text"], [(GOV_FEE_T, 0, self.FEE)]), "propose")
+        self.pid = from_top_u(r.out[0])
+        self.snap[c] = {S_ACTIVE: self.take_snapshot()}
+        self.pending = (105, 105, 5, 630)
+        self.voting = (200, 200, 5, 1200)
+        self.over = (100 + 10 + 14400 + 50, 100 + 10 + 14400 + 50, 6, 6 * 14560)
+
+    def ep__propose(self, row, role, st):
+        return Call([b"another proposal"], [(GOV_FEE_T, 0, self.FEE)])
+
+    def ep__vote(self, row, role, st):
+        return Call([top_u(self.pid), top_u(0)], block=self.voting)
+
+    def ep__cancel(self, row, role, st):
+        return Call([top_u(self.pid)], block=self.pending)
+
+    def ep__withdrawDeposit(self, row, role, st):
+        return Call([top_u(self.pid)], block=self.over)
+
+    def ep__changeMinFeeForProposal(self, row, role, st):
+        return Call([top_u(4 * 10 ** 24)])
+
+    def ep__changeQuorumPercentage(self, row, role, st):
+        return Call([top_u(4000)])
+
+    def ep__changeWithdrawPercentage(self, row, role, st):
+        return Call([top_u(4000)])
+
+    def ep__changeVotingDelayInBlocks(self, row, role, st):
+        return Call([top_u(20)])
+
+    def ep__changeVotingPeriodInBlocks(self, row, role, st):
+        return Call([top_u(20000)])
+
+    def ep__getProposalStatus(self, row, role, st):
+        return Call([top_u(self.pid)])
+
+    ep__getProposalVotes = ep__getProposalStatus
+
+    def ep__getUserVotedProposals(self, row, role, st):
+        return Call([self.P])
+
+
+PD_TL, PD_TA, PD_TR, PD_TLK = b"LAUNCH-abcdef", b"USDC-abcdef", b"REDEEM-abcdef", b"LOCKED-abcdef"
+
+
+class PriceDiscWorldA(World):
+    """price-discovery: everybody has deposited both tokens in the no-penalty phase; `withdraw` runs
+    in that phase, `redeem` after the end"""
+    contracts = ("price-discovery",)
+
+    def __init__(self):
+        super().__init__()
+        vm = self.vm
+        c = "price-discovery"
+        self.set_block(12, 12, 1, 72)
+        self.owner = self.user("owner")
+        A = self.std_roles(c)
+        self.P = self.user("principal")
+        self.pd, self.lock = self.reserve("pricedisc"), self.reserve("simplelock")
+        self.target[c] = self.pd
+        self.must(vm.deploy(self.owner, "simple-lock", [], new_addr=self.lock), "simple-lock")
+        vm.sset(self.lock, b"lockedTokenId", PD_TLK)
+        vm.roles(self.lock, PD_TLK, ROLES_NFT)
+        args = [PD_TL, PD_TA, top_u(6), top_u(0), top_u(20), top_u(100), top_u(100), top_u(100), top_u(50),
+                top_u(10 ** 12), top_u(5 * 10 ** 12), top_u(25 * 10 ** 11), self.lock]
+        self.must(vm.deploy(self.owner, c, args, new_addr=self.pd), c)
+        vm.sset(self.pd, b"redeemTokenId", PD_TR)
+        vm.roles(self.pd, PD_TR, ROLES_NFT)
+        self.ocall(self.pd, "createInitialRedeemTokens")
+        self.set_block(25, 25, 1, 150)
+        for a in A.values():
+            vm.setbal(a, PD_TL, 0, BIG)
+            vm.setbal(a, PD_TA, 0, BIG)
+            self.must(vm.call(a, self.pd, "deposit", [], [(PD_TL, 0, 10 ** 9)]), "dep1")
+            self.must(vm.call(a, self.pd, "deposit", [], [(PD_TA, 0, 10 ** 9)]), "dep2")
+        self.snap[c] = {S_ACTIVE: self.take_snapshot()}
+        self.after = (400, 400, 60, 2400)
+
+    def ep__deposit(self, row, role, st):
+        return Call([], [(PD_TA, 0, 1000)])
+
+    def ep__withdraw(self, row, role, st):
+        return Call([], [(PD_TR, 2, 1000)])
+
+    def ep__redeem(self, row, role, st):
+        return Call([], [(PD_TR, 1, 1000)], block=self.after)
+
+    def ep__issueRedeemToken(self, row, role, st):
+        return Call([b"Redeem", b"RDM", top_u(18)], egld=5 * 10 ** 16)
+
+    def ep__setUnlockEpoch(self, row, role, st):
+        return Call([top_u(70)])
+
+
+
+T3, T4 = b"USDC-abcdef", b"UTK-abcdef"
+LKLP = b"LKLP-abcdef"
+
+
+class RouterWorldA(World):
+    """dex/router with a pair template and three pairs created through the router: A (T1/T2) active
+    with liquidity, B (T1/T3) in ActiveNoSwaps with the `adder` account as initial liquidity adder,
+    C (T2/T3) without an LP token"""
+    contracts = ("router",)
+
+    def __init__(self):
+        super().__init__()
+        vm = self.vm
+        c = "router"
+        self.owner = self.user("owner")
+        A = self.std_roles(c)
+        A[10 + P_ADDER] = self.user("adder")
+        self.P = self.user("principal")
+        self.dest = self.user("feedest")
+        self.router = self.reserve("router")
+        self.template = self.track(sc_addr("template"), create=False)
+        vm.acct(self.template, code="pair", owner=self.owner)
+        self.target[c] = self.router
+        self.must(vm.deploy(self.owner, "router", [self.template], new_addr=self.router), "router")
+        self.pairs = {}
+        self.next_pair = 0
+        for a in list(A.values()):
+            for t in (T1, T2, T3, T4):
+                vm.setbal(a, t, 0, BIG)
+        for name, ta, tb, lp in (("A", T1, T2, b"LPA-abcdef"), ("B", T1, T3, b"LPB-abcdef"), ("C", T2, T3, None)):
+            addr = self.new_pair_addr()
+            r = self.must(vm.call(self.owner, self.router, "createPair", [ta, tb, A[10 + P_ADDER], top_u(300), top_u(50)]), "createPair")
+            assert r.out[0] == addr
+            self.pairs[name] = addr
+            for t in (ta, tb):
+                vm.roles(addr, t, ["ESDTRoleLocalBurn"])
+            if lp:
+                self.ocall(addr, "setLpTokenIdentifier", [lp])
+                vm.roles(addr, lp, ROLES_MINT)
+                self.must(vm.call(A[10 + P_ADDER], addr, "addInitialLiquidity", [], [(ta, 0, 10 ** 9), (tb, 0, 2 * 10 ** 9)]), "init-liq")
+        self.ocall(self.router, "resume", [self.pairs["A"]])
+        self.ocall(self.router, "addCommonTokensForUserPairs", [T1])
+        self.ocall(self.router, "configEnableByUserParameters", [T1, LKLP, top_u(1), top_u(0)])
+        attrs = nest_bytes(b"LPB-abcdef") + nest_u64(0) + nest_u64(1000)
+        for a in A.values():
+            vm.setbal(a, LKLP, 1, 10 ** 6, attrs)
+        self.set_block(50, 50, 5, 300)
+        self.snap[c] = {S_ACTIVE: self.take_snapshot()}
+        self.ocall(self.router, "pause", [self.router])
+        self.snap[c][S_PAUSED] = self.take_snapshot()
+
+    def new_pair_addr(self):
+        self.next_pair += 1
+        a = self.track(sc_addr(f"rpair{self.next_pair}"), create=False)
+        self.vm.newaddr(self.router, self.vm.nonce(self.router), a)
+        return a
+
+    def ep__pause(self, row, role, st):
+        return Call([self.router])
+
+    ep__resume = ep__pause
+
+    def ep__createPair(self, row, role, st):
+        # the new pair is deployed at a scratch address that is not part of the digested world
+        def pre():
+            self.vm.newaddr(self.router, self.vm.nonce(self.router), sc_addr(f"scratch{self.vm.ncalls}"))
+        return Call([T3, T4, self.A["router"][10 + P_ADDER], top_u(300), top_u(50)], pre=pre)
+
+    def ep__upgradePair(self, row, role, st):
+        return Call([T1, T2])
+
+    ep__removePair = ep__upgradePair
+
+    def ep__issueLpToken(self, row, role, st):
+        return Call([self.pairs["C"], b"LPToken", b"LPC"], egld=5 * 10 ** 16)
+
+    def ep__setLocalRoles(self, row, role, st):
+        return Call([self.pairs["A"]])
+
+    def ep__setFeeOn(self, row, role, st):
+        return Call([self.pairs["A"], self.dest, T1])
+
+    ep__setFeeOff = ep__setFeeOn
+
+    def ep__setPairTemplateAddress(self, row, role, st):
+        return Call([self.template])
+
+    def ep__multiPairSwap(self, row, role, st):
+        return Call([self.pairs["A"], b"swapTokensFixedInput", T2, top_u(1)], [(T1, 0, 1000)])
+
+    def ep__configEnableByUserParameters(self, row, role, st):
+        return Call([T1, LKLP, top_u(2), top_u(1)])
+
+    def ep__addCommonTokensForUserPairs(self, row, role, st):
+        return Call([T4])
+
+    def ep__removeCommonTokensForUserPairs(self, row, role, st):
+        return Call([T1])
+
+    def ep__setSwapEnabledByUser(self, row, role, st):
+        return Call([self.pairs["B"]], [(LKLP, 1, 10 ** 5)])
+
+    def ep__getPair(self, row, role, st):
+        return Call([T1, T2])
+
+    def ep__getEnableSwapByUserConfig(self, row, role, st):
+        return Call([T1])
+
+
+
+def find_payment(r, token):
+    """the returned payment of the given token among a call's results"""
+    for o in r.out:
+        try:
+            p = dec_payment(o)
+        except Exception:
+            continue
+        if p[0] == token and p[2] > 0:
+            return p
+    raise AssertionError((token, r))
+
+
+def deploy_live_pair(w, addr, ta, tb, lp, amount=10 ** 12):
+    """an active pair (no initial adder) with liquidity provided by the owner"""
+    vm = w.vm
+    w.must(vm.deploy(w.owner, "pair", [ta, tb, w.owner, w.owner, top_u(300), top_u(50), ZERO_ADDR], new_addr=addr), "pair")
+    w.ocall(addr, "setLpTokenIdentifier", [lp])
+    vm.roles(addr, lp, ROLES_MINT)
+    for t in (ta, tb):
+        vm.roles(addr, t, ["ESDTRoleLocalBurn"])
+    w.ocall(addr, "resume")
+    vm.setbal(w.owner, ta, 0, BIG)
+    vm.setbal(w.owner, tb, 0, BIG)
+    w.ocall(addr, "addLiquidity", [top_u(1), top_u(1)], [(ta, 0, amount), (tb, 0, amount)])
+
+
+def deploy_farm(w, code, addr, reward, farming, farm_token, efact, admin):
+    """an active farm producing rewards"""
+    vm = w.vm
+    w.must(vm.deploy(w.owner, code, [reward, farming, top_u(10 ** 12), ZERO_ADDR, w.owner, admin], new_addr=addr), code)
+    vm.sset(addr, b"farm_token_id", farm_token)
+    vm.roles(addr, farm_token, ROLES_NFT)
+    vm.roles(addr, reward, ROLES_MINT)
+    if farming != reward:
+        vm.roles(addr, farming, ["ESDTRoleLocalBurn"])
+    w.ocall(addr, "setEnergyFactoryAddress", [efact])
+    w.must(vm.call(admin, addr, "setPerBlockRewardAmount", [top_u(10 ** 6)]))
+    w.must(vm.call(admin, addr, "startProduceRewards"))
+    w.ocall(addr, "resume")
+
+
+SL_LOCKED, SL_LPPROXY, SL_FARMPROXY = b"SLOCK-abcdef", b"LPPROXY-abcdef", b"FPROXY-abcdef"
+
+
+class SimpleLockWorldA(World):
+    """simple-lock with a whitelisted pair (T1/T2) and a whitelisted farm on the pair's LP token; every
+    role holds a locked token, a locked-LP proxy token and a farm proxy token"""
+    contracts = ("simple-lock",)
+
+    def __init__(self):
+        super().__init__()
+        vm = self.vm
+        c = "simple-lock"
+        self.owner = self.user("owner")
+        A = self.std_roles(c)
+        self.P = self.user("principal")
+        self.sl, self.pair, self.farm, self.efact = [self.reserve(n) for n in ("simplelock", "pair1", "farm1", "efactory")]
+        self.target[c] = self.sl
+        self.must(vm.deploy(self.owner, "energy-factory-mock", [], new_addr=self.efact), "efact-mock")
+        deploy_live_pair(self, self.pair, T1, T2, LP)
+        deploy_farm(self, "farm", self.farm, REW, LP, FARMTK, self.efact, A[R_ADMIN])
+        self.must(vm.deploy(self.owner, c, [], new_addr=self.sl), c)
+        for key, tok in ((b"lockedTokenId", SL_LOCKED), (b"lpProxyTokenId", SL_LPPROXY), (b"farmProxyTokenId", SL_FARMPROXY)):
+            vm.sset(self.sl, key, tok)
+            vm.roles(self.sl, tok, ROLES_NFT)
+        self.ocall(self.sl, "addLpToWhitelist", [self.pair, T1, T2])
+        self.ocall(self.sl, "addFarmToWhitelist", [self.farm, LP, b""])
+        self.ocall(self.farm, "addSCAddressToWhitelist", [self.sl])
+        self.unlock_epoch = 500
+        self.tok = {}
+        for a in A.values():
+            vm.setbal(a, T1, 0, BIG)
+            vm.setbal(a, T2, 0, BIG)
+            d = {}
+            r = self.must(vm.call(a, self.sl, "lockTokens", [top_u(self.unlock_epoch)], [(T1, 0, 10 ** 9)]), "lock")
+            d["locked"] = dec_payment(r.out[0])[1]
+            lps = []
+            for _ in range(2):
+                r = self.must(vm.call(a, self.sl, "addLiquidityLockedToken", [top_u(1), top_u(1)],
+                                      [(SL_LOCKED, d["locked"], 10 ** 6), (T2, 0, 10 ** 6)]), "addLiqLocked")
+                lps.append(find_payment(r, SL_LPPROXY))
+            d["lp"] = lps[0]
+            r = self.must(vm.call(a, self.sl, "enterFarmLockedToken", [b""], [lps[1]]), "enterFarmLocked")
+            d["farm"] = find_payment(r, SL_FARMPROXY)
+            self.tok[a] = d
+        self.set_block(1000, 1000, 20, 6000)
+        self.snap[c] = {S_ACTIVE: self.take_snapshot()}
+        self.expired = (1100, 1100, 600, 6600)
+
+    def mine(self, role):
+        return self.tok[self.A["simple-lock"][role]]
+
+    def ep__lockTokens(self, row, role, st):
+        return Call([top_u(self.unlock_epoch)], [(T1, 0, 1000)])
+
+    def ep__unlockTokens(self, row, role, st):
+        return Call([], [(SL_LOCKED, self.mine(role)["locked"], 1000)], block=self.expired)
+
+    def ep__addLiquidityLockedToken(self, row, role, st):
+        return Call([top_u(1), top_u(1)], [(SL_LOCKED, self.mine(role)["locked"], 1000), (T2, 0, 1000)])
+
+    def ep__removeLiquidityLockedToken(self, row, role, st):
+        t = self.mine(role)["lp"]
+        return Call([top_u(1), top_u(1)], [(t[0], t[1], t[2] // 2)])
+
+    def ep__enterFarmLockedToken(self, row, role, st):
+        t = self.mine(role)["lp"]
+        return Call([b""], [(t[0], t[1], t[2] // 2)])
+
+    def ep__exitFarmLockedToken(self, row, role, st):
+        return Call([], [self.mine(role)["farm"]])
+
+    ep__farmClaimRewardsLockedToken = ep__exitFarmLockedToken
+
+    def ep__addLpToWhitelist(self, row, role, st):
+        return Call([self.dummy_sc, T1, T3])
+
+    def ep__removeLpFromWhitelist(self, row, role, st):
+        return Call([self.pair, T1, T2])
+
+    def ep__addFarmToWhitelist(self, row, role, st):
+        return Call([self.dummy_sc, T3, b""])
+
+    def ep__removeFarmFromWhitelist(self, row, role, st):
+        return Call([self.farm, LP, b""])
+
+    def issue(self, row, role, st):
+        return Call([b"Token", b"TKN", top_u(18)], egld=5 * 10 ** 16)
+
+    ep__issueLockedToken = ep__issueLpProxyToken = ep__issueFarmProxyToken = issue
+
+
+WLP, WFARM = b"WLPTOK-abcdef", b"WFARM-abcdef"
+
+
+class ProxyDexWorldA(World):
+    """proxy_dex over a real energy factory, a MEX/WEGLD pair and a farm-with-locked-rewards on its LP
+    token; every role holds locked MEX, two wrapped LP tokens and two wrapped farm tokens"""
+    contracts = ("proxy_dex",)
+
+    def __init__(self):
+        super().__init__()
+        vm = self.vm
+        c = "proxy_dex"
+        self.owner = self.user("owner")
+        A = self.std_roles(c)
+        A[10 + P_WL] = self.sc("wl-caller")
+        self.P = self.user("principal")
+        self.proxy, self.pair, self.farm, self.efact = [self.reserve(n) for n in ("proxydex", "pair1", "farm1", "efactory")]
+        self.target[c] = self.proxy
+        deploy_energy_factory(self, self.efact, self.dummy_sc)
+        self.ocall(self.efact, "unpause")
+        deploy_live_pair(self, self.pair, MEX, T1, LP)
+        deploy_farm(self, "farm-with-locked-rewards", self.farm, MEX, LP, FARMTK, self.efact, A[R_ADMIN])
+        self.ocall(self.farm, "setLockingScAddress", [self.efact])
+        self.ocall(self.farm, "setLockEpochs", [top_u(360)])
+        self.must(vm.deploy(self.owner, c, [LEGACY, self.efact, self.efact], new_addr=self.proxy), c)
+        vm.sset(self.proxy, b"wrappedLpTokenId", WLP)
+        vm.sset(self.proxy, b"wrappedFarmTokenId", WFARM)
+        vm.roles(self.proxy, WLP, ROLES_NFT)
+        vm.roles(self.proxy, WFARM, ROLES_NFT)
+        vm.roles(self.proxy, MEX, ROLES_MINT)
+        vm.roles(self.proxy, LOCKED, ["ESDTRoleNFTBurn"])
+        self.ocall(self.proxy, "addPairToIntermediate", [self.pair])
+        self.ocall(self.proxy, "addFarmToIntermediate", [self.farm])
+        self.ocall(self.proxy, "addSCAddressToWhitelist", [A[10 + P_WL]])
+        self.ocall(self.farm, "addSCAddressToWhitelist", [self.proxy])
+        self.ocall(self.efact, "addSCAddressToWhitelist", [self.proxy])
+        self.ocall(self.efact, "addSCAddressToWhitelist", [self.farm])
+        self.ocall(self.efact, "addToTokenTransferWhitelist", [self.proxy])
+        self.tok = {}
+        for a in list(A.values()) + [self.P]:
+            vm.setbal(a, MEX, 0, BIG)
+            vm.setbal(a, T1, 0, BIG)
+            r = self.must(vm.call(a, self.efact, "lockTokens", [top_u(360)], [(MEX, 0, 10 ** 10)]), "lock")
+            ln = dec_payment(r.out[0])[1]
+            w = []
+            for _ in range(4):
+                r = self.must(vm.call(a, self.proxy, "addLiquidityProxy", [self.pair, top_u(1), top_u(1)],
+                                      [(LOCKED, ln, 10 ** 6), (T1, 0, 10 ** 6)]), "addLiqProxy")
+                w.append(find_payment(r, WLP))
+            f = []
+            for t in w[2:]:
+                r = self.must(vm.call(a, self.proxy, "enterFarmProxy", [self.farm], [t]), "enterFarmProxy")
+                f.append(find_payment(r, WFARM))
+            self.tok[a] = dict(locked=ln, wlp=w[:2], wfarm=f)
+        self.set_block(1000, 1000, 12, 6000)
+        self.snap[c] = {S_ACTIVE: self.take_snapshot()}
+
+    def mine(self, row, role):
+        a = self.A["proxy_dex"][role]
+        return self.tok[a]
+
+    def ep__addLiquidityProxy(self, row, role, st):
+        return Call([self.pair, top_u(1), top_u(1)], [(LOCKED, self.mine(row, role)["locked"], 1000), (T1, 0, 1000)])
+
+    def ep__removeLiquidityProxy(self, row, role, st):
+        return Call([self.pair, top_u(1), top_u(1)], [self.mine(row, role)["wlp"][0]])
+
+    def ep__increaseProxyPairTokenEnergy(self, row, role, st):
+        return Call([top_u(720)], [self.mine(row, role)["wlp"][0]])
+
+    def ep__enterFarmProxy(self, row, role, st):
+        return Call([self.farm], [self.mine(row, role)["wlp"][0]])
+
+    def ep__exitFarmProxy(self, row, role, st):
+        return Call([self.farm], [self.mine(row, role)["wfarm"][0]])
+
+    ep__claimRewardsProxy = ep__exitFarmProxy
+
+    def ep__increaseProxyFarmTokenEnergy(self, row, role, st):
+        return Call([top_u(720)], [self.mine(row, role)["wfarm"][0]])
+
+    def ep__mergeWrappedFarmTokens(self, row, role, st):
+        return Call([self.farm], self.mine(row, role)["wfarm"])
+
+    def ep__mergeWrappedLpTokens(self, row, role, st):
+        return Call([], self.mine(row, role)["wlp"])
+
+    def ep__removeIntermediatedPair(self, row, role, st):
+        return Call([self.pair])
+
+    def ep__removeIntermediatedFarm(self, row, role, st):
+        return Call([self.farm])
+
+    def ep__removeSCAddressFromWhitelist(self, row, role, st):
+        return Call([self.A["proxy_dex"][10 + P_WL]])
+
+    def issue(self, row, role, st):
+        return Call([b"Token", b"TKN", top_u(18)], egld=5 * 10 ** 16)
+
+    ep__registerProxyPair = ep__registerProxyFarm = issue
+
+
+DUAL = b"DYIELD-abcdef"
+
+
+class StakingProxyWorldA(World):
+    """farm-staking-proxy over a WEGLD/RIDE pair, an LP farm and a RIDE staking farm, with the
+    permissions hub; every role holds an LP-farm position of its own, one whose original owner is the
+    principal, and dual-yield tokens of both kinds"""
+    contracts = ("farm-staking-proxy",)
+
+    def __init__(self):
+        super().__init__()
+        vm = self.vm
+        c = "farm-staking-proxy"
+        self.owner = self.user("owner")
+        A = self.std_roles(c)
+        A[10 + P_WL] = self.sc("wl-caller")
+        self.P = self.user("principal")
+        self.proxy, self.pair, self.lpfarm, self.stk, self.efact = [self.reserve(n) for n in
+                                                                     ("stkproxy", "pair1", "lpfarm", "staking1", "efactory")]
+        self.target[c] = self.proxy
+        self.must(vm.deploy(self.owner, "energy-factory-mock", [], new_addr=self.efact), "efact-mock")
+        self.setup_hub(A)
+        deploy_live_pair(self, self.pair, T1, STK, LP)
+        deploy_farm(self, "farm", self.lpfarm, REW, LP, FARMTK, self.efact, A[R_ADMIN])
+        # staking farm
+        self.must(vm.deploy(self.owner, "farm-staking", [STK, top_u(10 ** 12), top_u(5000), top_u(3), self.owner, A[R_ADMIN]],
+                            new_addr=self.stk), "farm-staking")
+        vm.sset(self.stk, b"farm_token_id", STKFARM)
+        vm.roles(self.stk, STKFARM, ROLES_NFT)
+        vm.roles(self.stk, STK, ["ESDTRoleLocalBurn"])
+        self.ocall(self.stk, "setEnergyFactoryAddress", [self.efact])
+        vm.setbal(A[R_ADMIN], STK, 0, BIG)
+        self.must(vm.call(A[R_ADMIN], self.stk, "topUpRewards", [], [(STK, 0, 10 ** 15)]))
+        self.must(vm.call(A[R_ADMIN], self.stk, "setPerBlockRewardAmount", [top_u(10 ** 4)]))
+        self.must(vm.call(A[R_ADMIN], self.stk, "startProduceRewards"))
+        self.ocall(self.stk, "resume")
+        # proxy
+        self.must(vm.deploy(self.owner, c, [self.efact, self.lpfarm, self.stk, self.pair, STK, FARMTK, STKFARM, LP],
+                            new_addr=self.proxy), c)
+        vm.sset(self.proxy, b"dualYieldTokenId", DUAL)
+        vm.roles(self.proxy, DUAL, ROLES_NFT)
+        self.ocall(self.proxy, "setPermissionsHubAddress", [self.hub])
+        self.ocall(self.proxy, "addSCAddressToWhitelist", [A[10 + P_WL]])
+        self.ocall(self.lpfarm, "addSCAddressToWhitelist", [self.proxy])
+        self.ocall(self.stk, "addSCAddressToWhitelist", [self.proxy])
+        self.set_block(500, 500, 6, 3000)              # the pair's first price observation is old enough
+        everyone = list(A.values()) + [self.P]
+        for a in everyone:
+            vm.setbal(a, T1, 0, BIG)
+            vm.setbal(a, STK, 0, BIG)
+            r = self.must(vm.call(a, self.pair, "addLiquidity", [top_u(1), top_u(1)], [(T1, 0, 10 ** 9), (STK, 0, 10 ** 9)]), "addLiq")
+            assert dec_payment(r.out[0])[0] == LP
+        self.set_block(700, 700, 6, 4200)              # ... and lies in the past
+        self.tok = {}
+
+        def farm_pos(a, amount):
+            r = self.must(vm.call(a, self.lpfarm, "enterFarm", [], [(LP, 0, amount)]), "enterFarm")
+            return find_payment(r, FARMTK)
+
+        def dual(a, pos):
+            r = self.must(vm.call(a, self.proxy, "stakeFarmTokens", [], [pos]), "stakeFarmTokens")
+            p = Dec(r.out[0]).payment()                 # StakeProxyResult { dual_yield_tokens, ... }
+            assert p[0] == DUAL and p[2] > 0, r
+            return p
+
+        for a in A.values():
+            d = dict(own_pos=farm_pos(a, 10 ** 6), own_dual=dual(a, farm_pos(a, 10 ** 6)))
+            # principal's LP-farm position handed to the role account, and a dual-yield token minted for the principal
+            pp = farm_pos(self.P, 10 ** 6)
+            self.must(vm.transfer(self.P, a, [pp]))
+            d["p_pos"] = pp
+            pd = dual(self.P, farm_pos(self.P, 10 ** 6))
+            self.must(vm.transfer(self.P, a, [pd]))
+            d["p_dual"] = pd
+            self.tok[a] = d
+        self.set_block(900, 900, 6, 5400)
+        self.snap[c] = {S_ACTIVE: self.take_snapshot()}
+
+    def mine(self, role):
+        return self.tok[self.A["farm-staking-proxy"][role]]
+
+    def ep__stakeFarmTokens(self, row, role, st):
+        d = self.mine(role)
+        return Call([], [d["p_pos"] if row.variant == V_ORIG else d["own_pos"]])
+
+    def ep__claimDualYield(self, row, role, st):
+        d = self.mine(role)
+        return Call([], [d["p_dual"] if row.variant == V_ORIG else d["own_dual"]])
+
+    def ep__unstakeFarmTokens(self, row, role, st):
+        d = self.mine(role)
+        return Call([top_u(1), top_u(1)], [d["p_dual"] if row.variant == V_ORIG else d["own_dual"]])
+
+    def ep__stakeFarmOnBehalf(self, row, role, st):
+        return Call([self.P], [self.mine(role)["p_pos"]])
+
+    def ep__claimDualYieldOnBehalf(self, row, role, st):
+        a = self.A["farm-staking-proxy"][role]
+        return Call([], [self.mine(role)["p_dual"]], watch=[(self.P, REW), (a, REW), (self.P, STK), (a, STK)])
+
+    def ep__removeSCAddressFromWhitelist(self, row, role, st):
+        return Call([self.A["farm-staking-proxy"][10 + P_WL]])
+
+    def ep__registerDualYieldToken(self, row, role, st):
+        return Call([b"Token", b"TKN", top_u(18)], egld=5 * 10 ** 16)
+
+
+WORLDS = [PairWorldA, FarmWorldA, FarmLockedWorldA, StakingWorldA, HubWorldA, EnergyWorldA, FeesWorldA, GovWorldA, PriceDiscWorldA,
+          RouterWorldA, SimpleLockWorldA, ProxyDexWorldA, StakingProxyWorldA]
+
+
+
+
+
 
 
 def world_for(contract):
